@@ -162,7 +162,8 @@ SELECTORS = [
 ]
 SEL = {t: (fn, b) for t, fn, b in SELECTORS}
 
-FORMATS = ["records", "records", "records", "records.gz", "records.bz2", "records.lz4", "records.zst", "jsonl"]
+# "json.gz": JSON lines behind gzip, addressed as jsonfile://<path> (the only way rdump reads compressed JSON)
+FORMATS = ["records", "records", "records", "records.gz", "records.bz2", "records.lz4", "records.zst", "jsonl", "json.gz"]
 OUTS = [
     ("stdout", None), ("stdout", None), ("mode", "csv"), ("mode", "json"), ("mode", "jsonlines"), ("mode", "line"),
     ("mode", "line-verbose"), ("wstdout", None),
@@ -586,7 +587,7 @@ def _write_source(s, path, built_iter):
         with open(path, "wb") as f:
             f.write(bytes.fromhex(s["garbage"]))
         return 0, "other"
-    if fmt == "jsonl":
+    if fmt in ("jsonl", "json.gz"):
         tmp = path + ".full"
         w = RecordWriter("jsonfile://" + tmp)
         for r in recs:
@@ -630,7 +631,7 @@ def _write_source(s, path, built_iter):
     cut = s["cut"]
     if isinstance(cut, list):
         cutpos = ([0] + ends)[cut[1] % (len(ends) + 1)]
-        if fmt == "jsonl" and cutpos:
+        if fmt in ("jsonl", "json.gz") and cutpos:
             cutpos += 1
     else:
         cutpos = max(1, len(data) * cut // 1000)
@@ -645,6 +646,17 @@ def _write_source(s, path, built_iter):
     cpos = max(1, len(comp) * (cut if not isinstance(cut, list) else 500) // 1000)
     with open(path, "wb") as f:
         f.write(comp[:cpos])
+    if fmt.endswith(".gz"):
+        # what a truncated gzip file still holds is decided by an independent inflater (zlib), not by the reader
+        import zlib
+        try:
+            plain = zlib.decompressobj(31).decompress(comp[:cpos])
+        except zlib.error:
+            plain = b""
+        cnt = sum(1 for e, k in zip(ends, kinds) if k == "rec" and e <= len(plain))
+        if fmt == "records.gz" and len(plain) < 19:
+            cnt = 0
+        return cnt, "other"
     return None, "other"
 
 
@@ -765,7 +777,7 @@ def run_real(case):
                 except Exception:
                     pass
                 cnt = n
-            paths.append(path)
+            paths.append("jsonfile://" + path if s["format"] == "json.gz" else path)
             counts.append(cnt)
             fails.append(fk)
         o, out = case["opts"], case["out"]
